@@ -110,7 +110,13 @@ def wrap(ctx, stmt):
     raise ValueError(ctx)
 
 
-def program(decl, w, ctx, ty, const):
+# what happened to the NAME before the const declaration, in the same scope: nothing; it was an ordinary variable (untyped / typed declaration);
+# it is a parameter of the host function; it was a loop counter; it was declared in an earlier sibling block.  Whether the compiler accepts
+# the const re-declaration at all is its business - if it does, the name is const from there on
+PRES = ["var-before", "typed-var-before", "param", "counter-before", "sibling-block-before", "const-before-in-sibling-block"]
+
+
+def program(decl, w, ctx, ty, const, pre="none"):
     tt, init, other, _ = TYPES[ty]
     stmt = write_stmt(w, "cst", ty)
     if stmt is None:
@@ -119,12 +125,33 @@ def program(decl, w, ctx, ty, const):
         return None   # `modify` outside a function is a different (always rejected) misuse
     kw = "const " if const else ""
     declline = f"{kw}cst: {tt} = {init}"
-    body = [give_fn(ty), declline, wrap(ctx, stmt), "print " + OBSERVE.get(ty, "cst")]
+    before = []
+    if pre == "var-before":
+        if ty in ("list", "nested", "optint"):
+            return None
+        before = [f"cst = {other}"]
+    elif pre == "typed-var-before":
+        before = [f"cst: {tt} = {other}"]
+    elif pre == "param":
+        if decl != "function":
+            return None
+    elif pre == "counter-before":
+        if ty != "int":
+            return None
+        before = ["from 0 to 2, cst {\n}"]
+    elif pre == "sibling-block-before":
+        before = [f"if true {{\n cst: {tt} = {other}\n}}"]
+    elif pre == "const-before-in-sibling-block":
+        before = [f"if true {{\n const cst: {tt} = {other}\n}}"]
+    body = [give_fn(ty)] + before + [declline, wrap(ctx, stmt), "print " + OBSERVE.get(ty, "cst")]
     text = "\n".join(body)
-    pre = PRELUDE[ty] + "\n" if ty in PRELUDE else ""
+    pre_ = PRELUDE[ty] + "\n" if ty in PRELUDE else ""
     if decl == "module":
-        return pre + text + "\n"
+        return pre_ + text + "\n"
     ind = "\n".join(" " + l for l in text.split("\n"))
+    if decl == "function" and pre == "param":
+        return pre_ + f"host = fn(cst: {tt}) {{\n" + ind + f"\n}}\nhost({other})\n"
+    pre = pre_
     if decl == "function":
         return pre + "host = fn() {\n" + ind + "\n}\nhost()\n"
     if decl == "block":
@@ -209,7 +236,7 @@ class C10(Check):
     rule = ("all expressible (declaration context in {module, function, block, class name, imported module, exported member}, "
             "write form in 16 assignment forms, write context in {same scope, block, nested block, else, while, from, nested function, "
             "function in function, method; for class names also the class's own constructor / method / a closure in its method, and `modify` with a value of the "
-            "same type}, constant type) triples; each const case is paired with a positive control (same write on a "
+            "same type}, constant type) triples; the same with the const declared OVER AN EARLIER BINDING of the name in the same scope (ordinary variable, typed variable, parameter, loop counter, a variable / const of an earlier sibling block); each const case is paired with a positive control (same write on a "
             "non-const name must compile and run).  Non-trivial = the triple is syntactically expressible and its control is accepted.")
     assumptions = ["a plain (non-`modify`) assignment inside a nested function declares a local by the language's rules: there the "
                    "program may be accepted, but the constant must still hold its initializer afterwards"]
@@ -219,13 +246,15 @@ class C10(Check):
         tys = ["int", "str", "list", "obj", "nested"] if tier == "quick" else list(TYPES)
         gen = [("g", d, w, c, t) for d, w, c, t in itertools.product(DECLS, WRITES, CONTEXTS, tys)]
         sp = [("s", i) for i in range(len(SPECIAL))]
-        return [("L0-special-declarations", sp), ("L1-const-triples", gen)]
+        hist = [("g", d, w, c, t, pr) for pr in PRES for d in DECLS for w in ("assign", "typed", "+=", "?=stmt", "modify", "index", "index+=", "field", "field+=", "loopcounter", "unpack")
+                for c in ("same", "block", "fn", "while") for t in tys]
+        return [("L0-special-declarations", sp), ("L1h-const-declared-over-an-earlier-binding-of-the-name", hist), ("L1-const-triples", gen)]
 
     def describe(self, case):
         if case[0] == "s":
             k, w, c, stmt = SPECIAL[case[1]]
             return {"decl": k, "write": w, "context": c, "stmt": stmt}
-        return {"decl": case[1], "write": case[2], "context": case[3], "type": case[4]}
+        return dict({"decl": case[1], "write": case[2], "context": case[3], "type": case[4]}, **({"before": case[5]} if len(case) > 5 else {}))
 
     def run_case(self, case):
         viol = []
@@ -274,11 +303,12 @@ class C10(Check):
             return {"outcome": "rejected" if rejected else "accepted", "viol": viol, "nontrivial": True,
                     "tags": ["special-" + kind.split("-")[0]]}
 
-        _, decl, w, ctx, ty = case
-        src = program(decl, w, ctx, ty, True)
+        _, decl, w, ctx, ty = case[:5]
+        pre = case[5] if len(case) > 5 else "none"
+        src = program(decl, w, ctx, ty, True, pre)
         if src is None:
             return {"outcome": "inexpressible", "nontrivial": False}
-        ctl = program(decl, w, ctx, ty, False)
+        ctl = program(decl, w, ctx, ty, False, pre)
         rc = driver.run_ms(ctl)
         control_ok = rc.exit == 0
         res = driver.run_ms(src)
